@@ -53,6 +53,10 @@ class MissingReuseInfoError(ReuseError):
     """Some REUSE information is missing from the result."""
 
 
+class TemplateRenderError(ReuseError):
+    """The header template could not be rendered."""
+
+
 class CommentError(ReuseError):
     """An error occurred during an interaction with a comment."""
 
